@@ -58,7 +58,8 @@ class C08(InterpProp):
             'all active states at the end, also for empty steps; declaration order; each once); (2) in the failing run '
             'the log equals the baseline log up to the first evaluation of the chosen condition, which is false, the '
             'error has the class of the condition kind, carries that owner and that condition text, and nothing is '
-            'logged afterwards; non-trivial = the injected condition was actually reached')
+            'logged afterwards; (3) every evaluation of a condition mentioning __old__ is shown the values the variables had '
+            'when the interpreter asked for the preconditions of that same state / transition (its entry / its start); non-trivial = the injected condition was actually reached')
 
     def knobs(self, rnd, tier):
         return gen.Knobs(contracts=0.8, cflags=0, max_states=rnd.choice([5, 9, 13]), sends=0.15)
@@ -139,6 +140,27 @@ class C08(InterpProp):
                 break
             if any(e[0] == 'cond' for e in got):
                 res.features.add('conds-evaluated')
+        # (3) `__old__`: what a postcondition / invariant is shown equals the variables at the moment the
+        #     interpreter asked for the preconditions of that very state / transition (the entry, the start)
+        snaps = {}
+        for k, (op, ob) in enumerate(zip(ops, base['obs'])):
+            if op[0] != 'exec':
+                continue
+            bad = False
+            for e in ob['r'].get('oldchk', []):
+                if e[0] == 'snap':
+                    snaps[json.dumps(e[1])] = e[2]
+                else:
+                    res.features.add('old-read-' + e[2][0])
+                    want = snaps.get(json.dumps(e[2]))
+                    if e[4] != want:
+                        res.violations.append('step %d: %s condition %d of %s was shown __old__ = %s, the variables were %s when it %s'
+                                              % (k, e[1], e[3], e[2], e[4], want,
+                                                 'started' if e[2][0] == 't' else 'was entered'))
+                        bad = True
+                        break
+            if bad or ob['r']['outcome'] == 'error':
+                break
         inj = case.payload.get('inject')
         if not inj or '_base' not in obs:
             return
